@@ -28,7 +28,7 @@ def ref_key(op: Dict[str, Any], handle_contract: Dict[str, str]) -> Optional[Tup
         c = handle_contract.get(op["h"])
         return ("build", c, tuple(op["path"])) if c else None
     if kind == "cli":
-        return ("cli", op["c"], tuple(op["argv"]), json.dumps(op.get("files", []), sort_keys=True))
+        return ("cli", op["c"], tuple(op["argv"]), json.dumps([op.get("files", []), op.get("contracts", [])], sort_keys=True))
     if kind == "group":
         return ("group", op["canon"])
     return None
@@ -78,7 +78,8 @@ class RefStore:
             ]
             tgt = 1
         elif kind == "cli":
-            ops = [{"op": "cli", "c": key[1], "argv": list(key[2]), "files": json.loads(key[3]), "envelope": True}]
+            files, contracts = json.loads(key[3])
+            ops = [{"op": "cli", "c": key[1], "argv": list(key[2]), "files": files, "contracts": contracts, "envelope": True}]
             tgt = 0
         elif kind == "group":
             g = dict(self.group_ops[key[1]])
